@@ -14,8 +14,8 @@ package grpcv3
 //@   ensures old(r.err) != nil ==> ret0 == nil && ret1 == old(r.err)
 //@   ensures old(r.err) == nil ==> ret1 == nil && ret0 != nil
 //@   ensures old(r.err) != nil ==> headerGet(old(r.upstreamHeaders), "WWW-Authenticate", old(hver)) == "" || ret0 != nil
-//@   assert at store Key#1: mapnext.n > old(mapnext.n) && iface(stored) == mapnext.arg0[mapnext.n - 1]
-//@   assert at store Value#1: stored == joinOf(headerValues(r.upstreamHeaders, unbox(mapnext.arg0[mapnext.n - 1], string), hver), ",")
+//@   assert at store Key#1@f76988e1.1: mapnext.n > old(mapnext.n) && iface(stored) == mapnext.arg0[mapnext.n - 1]
+//@   assert at store Value#1@4a0431a2.1: stored == joinOf(headerValues(r.upstreamHeaders, unbox(mapnext.arg0[mapnext.n - 1], string), hver), ",")
 
 //@ func (*Handler).Check
 //@   props C01
